@@ -340,6 +340,16 @@ func (w *W) c09Streams(th bool) []*c09Stream {
 		}
 		add(c09Build("over-20MiB", lines, "\n", true))
 	}
+	// index-dense chunks (every LF is an index entry) of 7..24 KB: around whatever size decides
+	// between the one-goroutine and the two-goroutine parse of a chunk
+	for n := 7000; n <= 24500; n += 700 {
+		lines := []string{`{"a":1}`}
+		for i := 0; i < n; i++ {
+			lines = append(lines, "")
+		}
+		lines = append(lines, `{"b":2}`)
+		add(c09Build(fmt.Sprintf("blank-dense-%d", n), lines, "\n", true))
+	}
 	// one line larger than the 10 MiB read buffer, fetched by the read-until-newline step
 	big := `{"big":"` + strings.Repeat("x", 11<<20) + `"}`
 	add(c09Build("line-over-10MiB", []string{`{"a":1}`, big, `{"z":2}`}, "\n", true))
@@ -365,7 +375,8 @@ func runC09(w *W) {
 			if (frag == 0 || frag == 1) && chunksIfTiny > 4000 {
 				continue // every chunk allocates a 10 MiB buffer: byte-wise reads only for short streams
 			}
-			if len(s.data) > 4<<20 && frag != 6 && frag != 7 && frag != 2 {
+			bulk := strings.HasPrefix(s.name, "blank-dense") // thousands of lines: line-wise reads would make one 10 MiB chunk buffer per blank line
+			if (len(s.data) > 4<<20 || bulk) && frag != 6 && frag != 7 && frag != 2 {
 				continue
 			}
 			for variant := 0; variant < 6; variant++ {
@@ -391,10 +402,14 @@ func runC09(w *W) {
 			continue
 		}
 		step := 1
+		bulk := strings.HasPrefix(s.name, "blank-dense")
 		if len(s.data) > 300 {
 			step = len(s.data)/120 + 1
 			if th {
 				step = len(s.data)/1500 + 1
+			}
+			if bulk {
+				step = len(s.data)/8 + 1
 			}
 		}
 		for k := 0; k <= len(s.data); k += step {
@@ -410,7 +425,7 @@ func runC09(w *W) {
 				}
 			}
 			frag := []int{3, 7, 2, 6, 1}[idx%5]
-			if frag == 1 && len(s.data) > 4000 {
+			if frag == 1 && len(s.data) > 4000 || bulk && frag == 3 {
 				frag = 7
 			}
 			cfg := c09Cfg{frag: frag, failAt: at, policy: sched.StreamPolicy(idx % sched.NStreamPolicies), procs: []int{2, 16, 4}[idx%3], resBuf: idx % 2, reuse: idx % 3}
